@@ -1199,14 +1199,19 @@ func (db *DB) acquireReadLock(ctx context.Context) error {
 		return nil
 	}
 
-	// Start long running read-transaction to prevent checkpoints.
-	tx, err := db.db.BeginTx(ctx, nil)
+	// Start long running read-transaction to prevent checkpoints. The
+	// transaction must outlive the call that (re)acquires it: database/sql
+	// rolls a transaction back as soon as the context it was begun with is
+	// cancelled, which would silently drop the read lock once a caller's
+	// request-scoped context (e.g. a sync request with a timeout) ends.
+	txCtx := context.WithoutCancel(ctx)
+	tx, err := db.db.BeginTx(txCtx, nil)
 	if err != nil {
 		return err
 	}
 
 	// Execute read query to obtain read lock.
-	if _, err := tx.ExecContext(ctx, `SELECT COUNT(1) FROM _litestream_seq;`); err != nil {
+	if _, err := tx.ExecContext(txCtx, `SELECT COUNT(1) FROM _litestream_seq;`); err != nil {
 		_ = tx.Rollback()
 		return err
 	}
